@@ -6,7 +6,7 @@ LEVEL = 'proof'
 TRUSTED_BASE = ['CBMC 6.11 + cadical', 'tools/extract.py rewrite rules', "glibc's <sched.h> CPU_* macros as read by CBMC",
                 'axiom stub __sched_cpucount (out-of-line glibc population count): count() is only proved to forward it']
 ASSUMPTIONS = ['Linux (cpu_set_t) variant only; the portable words_[] variant for Windows/macOS is not compiled here',
-               'NOT decided: parseLinuxCpuList (std::string/strtol/strchr) and buildGroupsFromCacheTopology (std::vector of structs) are outside the extractable subset - '
+               'parseIntClamped (numeric token -> id or -1) is under contract with strtol as an axiom stub; NOT decided: the tokenising part of parseLinuxCpuList/parseAndAddRange (std::string, strchr, in-place NUL writes) and buildGroupsFromCacheTopology (std::vector of structs) are outside the extractable subset - '
                'the claim covers the set-algebra sentence of the property only',
                'count() equals the number of members only modulo the __sched_cpucount axiom']
 EXPLANATION = 'membership of an arbitrary ghost id before/after each operation, for every argument including negative and >= CPU_SETSIZE ids; range loops by loop contract'
@@ -33,13 +33,21 @@ def build(ctx):
     em('CpuSet_addRange', r'void\s+CpuSet::addRange\s*\(\s*int32_t\s+start\s*,\s*int32_t\s+end\s*\)', extra=mm + [lc()], must=['LC', 'R3'])
     em('CpuSet_removeRange', r'void\s+CpuSet::removeRange\s*\(\s*int32_t\s+start\s*,\s*int32_t\s+end\s*\)', extra=mm + [lc()], must=['LC', 'R3'])
     em('CpuSet_count', r'int32_t\s+CpuSet::count\s*\(\s*\)\s*const', must=['R2'])
+    pic = r.function(F, r'int32_t\s+parseIntClamped\s*\(\s*const\s+char\*\s*s\s*\)')
+    ctx.emit('parseIntClamped.body.inc', pic, must_fire=['R19'], subs=[('R19', r'std::strtol\(', 'G_strtol(', 1)])
+    import re
+    m = re.search(r'constexpr\s+long\s+kMaxReasonableCpuId\s*=\s*1\s*<<\s*(\d+)\s*;', r.text(F))
+    if not m:
+        raise X.ExtractionError('kMaxReasonableCpuId definition changed')
+    kmax = str(1 << int(m.group(1)))
     S = 'specs/c43_cpuset.c'
-    units = [Unit('MEMBER==CPU_ISSET', 'cbmc', S, 'member_matches_glibc', expect=[r'postcondition'], defines={'LOOPINV': '1'})]
+    units = [Unit('MEMBER==CPU_ISSET', 'cbmc', S, 'member_matches_glibc', expect=[r'postcondition'], defines={'LOOPINV': '1', 'KMAXCPU': kmax}),
+             Unit('parseIntClamped', 'cbmc', S, 'parseIntClamped', replace=['G_strtol'], expect=[r'postcondition'], defines={'LOOPINV': '1', 'KMAXCPU': kmax})]
     for fn in ('CpuSet_clear', 'CpuSet_add', 'CpuSet_remove', 'CpuSet_contains', 'CpuSet_count'):
         units.append(Unit(fn.replace('_', '::'), 'cbmc', S, fn, expect=[r'postcondition'], replace=['__sched_cpucount'] if fn == 'CpuSet_count' else [], timeout=300,
-                          defines={'LOOPINV': '1'}))
+                          defines={'LOOPINV': '1', 'KMAXCPU': kmax}))
     units.append(Unit('CpuSet::addRange', 'cbmc', S, 'CpuSet_addRange', loop_contracts=True, timeout=600, expect=[r'postcondition', r'loop_invariant|loop_step'],
-                      defines={'LOOPINV': 'MEMBER(self, g_k) == (g_old_member || (g_k >= start && g_k < i))'}))
+                      defines={'LOOPINV': 'MEMBER(self, g_k) == (g_old_member || (g_k >= start && g_k < i))', 'KMAXCPU': kmax}))
     units.append(Unit('CpuSet::removeRange', 'cbmc', S, 'CpuSet_removeRange', loop_contracts=True, timeout=600, expect=[r'postcondition', r'loop_invariant|loop_step'],
-                      defines={'LOOPINV': 'MEMBER(self, g_k) == (g_old_member && !(g_k >= start && g_k < i))'}))
+                      defines={'LOOPINV': 'MEMBER(self, g_k) == (g_old_member && !(g_k >= start && g_k < i))', 'KMAXCPU': kmax}))
     return units
